@@ -34,6 +34,9 @@ class PackIntMod:
             return [(val & (1 << i)) >> i for i in range((self.mod-1).bit_length())]
         
     def unpack(self, bits, pos):
+        if self.bitlen()==0:
+            # modulus 1: a zero-width field, there is no bit to look at
+            return 0
         if isinstance(bits[pos],(LinComb,LinCombBool)):
             # lincomb in: boundary checking
             ret = LinComb.from_bits(bits[pos:pos+self.bitlen()])
